@@ -37,6 +37,7 @@ def quilt_cases(draw):
     ascending_only = draw(st.integers(0, 3)) < 3
     # Bus labels: names, or the integers 0.. (0 is a falsy label); in sorted order or not (the Bus order is what counts)
     blabels = draw(st.sampled_from(['str', 'int', 'str_unsorted', 'int_unsorted', 'str']))
+    datelabels = draw(st.integers(0, 3)) == 3   # member labels on the quilt axis are dates (an IndexDate)
     backed = draw(st.booleans())
     k = draw(st.sampled_from([3, 2, 1, 4, 5]))
     w = draw(st.integers(1, 4))       # size of the aligned (opposite) axis
@@ -50,7 +51,7 @@ def quilt_cases(draw):
         members.append({'len': ln, 'cols': cols})
     total = sum(m['len'] for m in members)
     case = {'members': members, 'axis': axis, 'retain': retain, 'kinds': kinds, 'op': op, 'max_persist': draw(st.one_of(st.none(), st.integers(1, k))),
-            'backed': backed and blabels.startswith('str'), 'ascending_only': ascending_only, 'blabels': blabels}
+            'backed': backed and blabels.startswith('str'), 'ascending_only': ascending_only, 'blabels': blabels, 'datelabels': datelabels}
     if op in ('iloc', 'loc', 'getitem'):
         if case['ascending_only']:
             case['k0'] = draw(asc_key(total))
@@ -117,6 +118,8 @@ def _build(case, tmp):
             own = ['m%d' % i for i in range(ln)]
         else:
             own = ['x%d' % (off + i) for i in range(ln)]
+        if case.get('datelabels'):
+            own = sf.IndexDate([np.datetime64('2020-01-01') + (int(x[1:]) if isinstance(x, str) else x) for x in own])
         off += ln
         other = ['o%d' % j for j in range(w)]
         if axis == 0:
@@ -212,7 +215,10 @@ def _check_quilt(case, tmp):
         if op == 'shape':
             return (obj.shape, obj.ndim, obj.size, len(obj.index), len(obj.columns))
         if op == 'labels':
-            return (obs.labels_of(obj.index), obs.labels_of(obj.columns))
+            # (labels and the class of each axis index, per depth for a hierarchy)
+            def _cls(ax):
+                return [t.__name__ for t in ax.index_types.values] if ax.depth > 1 else [type(ax).__name__]
+            return (obs.labels_of(obj.index), obs.labels_of(obj.columns), _cls(obj.index), _cls(obj.columns))
         if op == 'values':
             return obj.values
         if op == 'to_frame':
